@@ -17,7 +17,14 @@ package pipc
 //@   at_call scope.New requires $0.ContextScope == nil
 //@   at_call Runner.Run requires $0.Context.Scope == sep && $0.Name == "body"
 //@   trace_ensures err == nil : ADD NEWSCOPE SUBMIT:body SPAWN $
-//@   trace_ensures err != nil : (ADD NEWSCOPE SUBMIT:body DONE $|^(ADD )?$)
+//@   trace_ensures err != nil : (ADD NEWSCOPE SUBMIT:body DONE $|^(PRELOAD )?(ADD )?$)
+// the task manager of the surrounding scope exists before the body is submitted - with or
+// without handlers: the body's scope shares the parent's data scope, so a manager created for
+// the body would be bound to the body's own (soon finished) context and then be found by every
+// later pipeline command of the surrounding scope
+//@   trace TasksUnit.FromScope as PRELOAD
+//@   at_call TasksUnit.FromScope requires $0 == parentScope
+//@   trace_ensures err == nil : PRELOAD ADD NEWSCOPE SUBMIT:body SPAWN $
 
 // Handlers are submitted only after the body's scope has been waited for, into the parent
 // scope, each at most once: finally iff defined, fail iff defined and the body failed,
